@@ -126,9 +126,11 @@ let parse_op (ws : string list) : map_op =
   | "remove" -> OpRemove (z 1)
   | "removeentry" -> OpRemoveEntry (z 1)
   | "tryinsert" -> OpTryInsert (z 1, z 2, z 3)
-  | "entry_or_insert" -> OpEntryOrInsert (z 1, z 2, z 3)
-  | "entry_insert" -> OpEntryInsert (z 1, z 2, z 3)
-  | "entry_remove" -> OpEntryRemove (z 1, z 2)
+  | "entry_or_insert" | "rentry_or_insert" | "raw_or_insert" | "eref_or_insert" -> OpEntryOrInsert (z 1, z 2, z 3)
+  | "entry_insert" | "rentry_insert" | "raw_insert" | "eref_insert" -> OpEntryInsert (z 1, z 2, z 3)
+  | "entry_remove" | "rentry_remove" | "raw_remove" -> OpEntryRemove (z 1, z 2)
+  | "rentry_drop" | "eref_drop" -> OpEntryDrop (z 1, z 2)
+  | "raw_get" -> OpGetKeyValue (z 1)
   | "entry_and_modify" -> OpEntryAndModify (z 1, z 2, z 3, z 4)
   | "entry_drop" -> OpEntryDrop (z 1, z 2)
   | "clear" -> OpClear
@@ -354,7 +356,7 @@ let parse_tout (s : string) : tout option =
 let alloc_size (d : dump) : int = match String.split_on_char ',' d.d_alloc with [s; _; _] -> int_of_string s | _ -> 0
 let ev_has_alloc_traffic (ev_s : string) : bool =
   List.exists (fun w -> String.length w > 2 && (String.sub w 0 2 = "A:" || String.sub w 0 2 = "F:")) (words ev_s)
-let single_insert_ops = ["insert"; "tryinsert"; "entry_or_insert"; "entry_insert"; "entry_and_modify"; "sinsert"; "sreplace";
+let single_insert_ops = ["insert"; "tryinsert"; "entry_or_insert"; "entry_insert"; "entry_and_modify"; "raw_or_insert"; "raw_insert"; "eref_or_insert"; "eref_insert"; "rentry_or_insert"; "rentry_insert"; "sinsert"; "sreplace";
                          "sgetorinsert"; "sgetorinsertwith"; "sentry_insert"; "tinsertunique"; "tentryinsert"; "tentryorinsert"]
 let churn_ops = ["insert"; "remove"; "removeentry"; "get"; "getkv"; "contains"; "getmut"; "tryinsert"; "entry_or_insert"; "entry_insert";
                  "entry_remove"; "entry_and_modify"; "entry_drop"; "len"; "capacity"; "allocsize"; "iter"; "iterfold";
@@ -975,8 +977,26 @@ let () =
          if huge then bump branch "huge_capacity_request";
          if do_c && lawful && not other_arm && not is_libpanic && not is_par && not huge then begin
            incr c_checked;
-           (match map_step cfg.backend cfg.tsize cfg.talign cfg.needs_drop rehash_guard_unconditional
-                    (hash_of panic_key) refuse tpre op with
+           let step t o = map_step cfg.backend cfg.tsize cfg.talign cfg.needs_drop rehash_guard_unconditional
+                    (hash_of panic_key) refuse t o in
+           (* rustc_entry reserves room for one element as soon as the key is found absent
+              (HashMap::rustc_entry), then inserts without growing: reserve(1) ; entry operation *)
+           let is_rentry = String.length opname > 7 && String.sub opname 0 7 = "rentry_" in
+           let key_absent = is_rentry && (match step tpre (OpContains (zs (List.nth opws 1))) with
+             | Ok ((_, OutBool false), _) -> true | _ -> false) in
+           let model_result =
+             if key_absent then
+               (match step tpre (OpReserve (zi 1)) with
+                | Fail e -> Fail e
+                | Ok ((t1, o1), evs1) ->
+                  bump branch "rustc_entry_vacant";
+                  if o1 = OutUnwind then Ok ((t1, o1), evs1)
+                  else if opname = "rentry_drop" then Ok ((t1, OutBool false), evs1)
+                  else (match step t1 op with
+                    | Fail e -> Fail e
+                    | Ok ((t2, o2), evs2) -> Ok ((t2, o2), evs1 @ evs2)))
+             else step tpre op in
+           (match model_result with
             | Fail e ->
               say "C-MISMATCH %s: model stops with %s but the implementation returned [%s]; pre=%s" where (err_text e) ret_s (dump_text pre)
             | Ok ((t', o), evs) ->
